@@ -519,11 +519,11 @@ def gen_ttf(r):
         start += n
     sub = fmt4(segs)
     if r.random() < 0.3:
-        # a Macintosh format-6 subtable in front of the Windows format-4 one, as real fonts have: unknown to the reader,
-        # to be skipped without losing the format-4 mapping
-        k = r.randint(1, 4)
-        sub6 = struct.pack(">HHHHH", 6, 10 + 2 * k, 0, 32, k) + b"".join(struct.pack(">H", r.randint(0, 5)) for _ in range(k))
-        cmap = struct.pack(">HH", 0, 2) + struct.pack(">HHL", 1, 0, 20) + struct.pack(">HHL", 3, 1, 20 + len(sub6)) + sub6 + sub
+        # a (3,10) format-12 subtable beside the (3,1) format-4 one, as most current fonts have: a format this reader
+        # does not know, to be skipped without losing the format-4 mapping
+        k = r.randint(1, 3)
+        sub12 = struct.pack(">HHLLL", 12, 0, 16 + 12 * k, 0, k) + b"".join(struct.pack(">LLL", 0x10000 + 16 * j, 0x10000 + 16 * j + 3, 7 + j) for j in range(k))
+        cmap = struct.pack(">HH", 0, 2) + struct.pack(">HHL", 3, 1, 20) + struct.pack(">HHL", 3, 10, 20 + len(sub)) + sub + sub12
     else:
         cmap = struct.pack(">HH", 0, 1) + struct.pack(">HHL", 3, 1, 12) + sub
     hdr = b"\0\1\0\0" + struct.pack(">HHHH", 1, 0, 0, 0) + struct.pack(">4sLLL", b"cmap", 0, 28, len(cmap))
